@@ -46,15 +46,19 @@ PROPS = {
     },
     "C07": {
         "level": "exploration",
-        "stages": [hist("hist", "hist::hist_c07", 600, 12000)],
-        "rule": "case = one audit of the cache directory after a build or clean (every entry re-hashed with the harness's own SHA-256/base-62); distinct by the set of entry names; non-trivial when the cache was not empty",
+        "stages": [hist("hist", "hist::hist_c07", 600, 12000),
+                   sched("sched", "sched::sched_c07", 60, 500, schedules_quick=16, schedules_thorough=100, thorough_ms=400000),
+                   hist("crash", "crash::crash_c07", 60, 2500, quick_ms=30000, thorough_ms=300000)],
+        "rule": "case = one audit of the cache directory after a build or clean (every entry re-hashed with the harness's own SHA-256/base-62); distinct by the set of entry names; non-trivial when the cache was not empty; stage sched: the same audit after the final invocation of a scenario under explored schedules (distinct by interleaving); stage crash: the same audit on the disk at every kill point of an interrupted invocation (C11's enumeration, torn writes included)",
         "floor": {"quick": 200, "thorough": 2000},
         "assumptions": COMMON_ASSUME + ["clock model A"],
     },
     "C08": {
         "level": "exploration",
-        "stages": [hist("hist", "hist::hist_c08", 600, 12000)],
-        "rule": "case = one ruler invocation with content-set containment (ever-declared target paths + cache) checked before/after and every ruler-issued rename checked online; distinct by (graph shape, history prefix); non-trivial when ruler displaced at least one file into the cache",
+        "stages": [hist("hist", "hist::hist_c08", 600, 12000),
+                   sched("sched", "sched::sched_c08", 60, 500, schedules_quick=16, schedules_thorough=100, thorough_ms=400000),
+                   hist("crash", "crash::crash_c08", 60, 2500, quick_ms=30000, thorough_ms=300000)],
+        "rule": "case = one ruler invocation with content-set containment (ever-declared target paths + cache) checked before/after and every ruler-issued rename checked online; distinct by (graph shape, history prefix); non-trivial when ruler displaced at least one file into the cache; stage sched: the same containment check under explored schedules (distinct by interleaving); stage crash: containment of the disk at every kill point of an interrupted invocation against the disk before it (C11's enumeration)",
         "floor": {"quick": 200, "thorough": 2000},
         "assumptions": COMMON_ASSUME + ["commands replace each output atomically and deterministically; a failing command writes nothing"],
     },
@@ -90,8 +94,9 @@ PROPS = {
     },
     "C20": {
         "level": "exploration",
-        "stages": [hist("hist", "hist::hist_c20", 600, 12000)],
-        "rule": "case = one build whose recorded Printer calls are compared with the System-call log of the same build (Built <=> command ran, Recovered <=> moved in from the cache, Up-to-date <=> untouched, none for failed/cancelled rules); distinct by (graph shape, history prefix, schedule); non-trivial when at least two different banners were printed or a failure occurred",
+        "stages": [hist("hist", "hist::hist_c20", 600, 12000),
+                   sched("sched", "sched::sched_c20", 60, 500, schedules_quick=16, schedules_thorough=100, thorough_ms=400000)],
+        "rule": "case = one build whose recorded Printer calls are compared with the System-call log of the same build (Built <=> command ran, Recovered <=> moved in from the cache, Up-to-date <=> untouched, none for failed/cancelled rules); distinct by (graph shape, history prefix, schedule); non-trivial when at least two different banners were printed or a failure occurred; stage sched: the same comparison for the final build of a scenario under explored schedules (scheduler choice list as identity)",
         "floor": {"quick": 200, "thorough": 2000},
         "assumptions": COMMON_ASSUME,
     },
@@ -112,7 +117,7 @@ PROPS = {
     "C05": {
         "level": "exploration",
         "stages": [sched("sched", "sched::sched_c05", 150, 1500), sched("free", "sched::sched_c05", 40, 600, schedules_quick=10, schedules_thorough=30, free=True), hist("hist", "hist::hist_c05", 250, 6000)],
-        "rule": "case = one execution of build or clean under one schedule; deadlock is decided logically by the scheduler (no runnable thread), panics are caught at thread and call boundaries, SenderError/ReceiverError/Weird results are violations; distinct by (scenario, interleaving identity); non-trivial when at least 3 logical threads existed",
+        "rule": "case = one execution of build or clean under one schedule; deadlock is decided logically by the scheduler (no runnable thread), a run that has not finished after 400 000 scheduler steps (the serial run takes a few hundred) is a loop that does not end, panics are caught at thread and call boundaries, SenderError/ReceiverError/Weird results are violations; scenarios include states in which a state file was damaged by hand and in which the directories of cleaned targets were removed; distinct by (scenario, interleaving identity); non-trivial when at least 3 logical threads existed",
         "floor": {"quick": 1000, "thorough": 30000},
         "assumptions": COMMON_ASSUME + SCHED_ASSUME + ["free-running hangs would only be seen as a watchdog timeout (inconclusive); the logical decision is made in scheduler mode"],
     },
@@ -163,10 +168,12 @@ PROPS = {
     },
     "C15": {
         "level": "exploration",
+        "needs_plain_binary": True,
         "stages": [hist("hash", "hashd::hash_c15", 150, 2000),
                    {"name": "hashlib", "kind": "python", "module": "offline_oracles", "oracle": "hash", "source_stage": "hash"},
+                   {"name": "cli", "kind": "python", "module": "hash_cli", "cases": {"quick": 24, "thorough": 400}},
                    {"name": "miri", "kind": "miri", "test": "hashd::hash_c15", "cases": {"quick": 0, "thorough": 8}, "tiers": ["thorough"], "shards": 4, "env": {"VERIF_NOHASH": "1"}}],
-        "rule": "case = one file content hashed by ruler through short-read handles at several paths/ages (every length 0..1100, boundary and random lengths up to 300 KB / 1.1 MB), one 256-bit value round trip (edge values, 62^k and neighbours, leading-zero digits, random), one string offered to the decoder (every length 0..60, foreign characters, the 200 smallest values above 2^256-1, random 43-character strings judged by a reference decoder), or one directory tree with a single-point change; the exported cases are re-checked with Python hashlib; distinct by value",
+        "rule": "case = one file content hashed by ruler through short-read handles at several paths/ages (every length 0..1100, boundary and random lengths up to 300 KB / 1.1 MB), one 256-bit value round trip (edge values, 62^k and neighbours, leading-zero digits, random), one string offered to the decoder (every length 0..60, foreign characters, the 200 smallest values above 2^256-1, random 43-character strings judged by a reference decoder), or one directory tree with a single-point change; the exported cases are re-checked with Python hashlib; the `cli` stage runs the built binary's `ruler hash` on real files (sizes around the read buffer and page size, a second copy at another path with an old modification time) against hashlib, and on real directory trees (stable, changes with every single-point change including empty sub-directories, returns after undo); distinct by value",
         "floor": {"quick": 2000, "thorough": 20000},
         "assumptions": ["oracle: Python hashlib.sha256 and an independent base-62 implementation (pytools/bincode_reader.py), plus the harness's own SHA-256 in-process"],
     },
